@@ -113,6 +113,34 @@ func genSkipPattern(r *sim.Rng, paths []string) string {
 	return p
 }
 
+// caseTwin returns a pattern that differs from p only in the case of its
+// letters (so /\d$/ becomes /\D$/, Name becomes nAME): a different pattern with,
+// in general, a different meaning - unless something keys matchers by a
+// case-folded pattern text.
+func caseTwin(p string) string {
+	var b strings.Builder
+	for _, r := range p {
+		switch {
+		case r >= 'a' && r <= 'z':
+			b.WriteRune(r - 'a' + 'A')
+		case r >= 'A' && r <= 'Z':
+			b.WriteRune(r - 'A' + 'a')
+		default:
+			b.WriteRune(r)
+		}
+	}
+	t := b.String()
+	if isRe(t) {
+		if _, err := regexp.Compile(t[1 : len(t)-1]); err != nil {
+			return p
+		}
+		if _, err := regexp.Compile("(?i)" + t[1:len(t)-1]); err != nil {
+			return p
+		}
+	}
+	return t
+}
+
 func genSkipCase(cfg Config, i int) SkipCase {
 	r := sim.Derive(cfg.Seed, "skipsim", i)
 	idx := make([]int, len(skipFieldPool))
@@ -136,6 +164,7 @@ func genSkipCase(cfg Config, i int) SkipCase {
 	}
 	c := SkipCase{Fields: fields, Nested: nested}
 	nm := r.Range(2, 6)
+	var used []string
 	for m := 0; m < nm; m++ {
 		sm := SkipMethod{Name: fmt.Sprintf("M%d", m), ExactCase: true}
 		k := r.Range(1, 4)
@@ -150,6 +179,11 @@ func genSkipCase(cfg Config, i int) SkipCase {
 				}
 			}
 			p := genSkipPattern(r, paths)
+			if len(used) > 0 && r.Chance(2, 5) {
+				// the case twin of a pattern used earlier in this file
+				p = caseTwin(sim.Pick(r, used))
+			}
+			used = append(used, p)
 			sm.Patterns = append(sm.Patterns, p)
 			sm.Notations = append(sm.Notations, ":skip "+p)
 		}
